@@ -1,6 +1,7 @@
 package main
 
 import (
+	"bytes"
 	"encoding/binary"
 	"fmt"
 	"math"
@@ -265,4 +266,50 @@ func hostDest(t elemType, n int) (dst any, bytesOf func() []byte) {
 	p := reflect.New(t.T)
 	decodeInto(p.Elem(), fill)
 	return p.Interface(), func() []byte { return encodeFrom(p.Elem(), make([]byte, 0, n)) }
+}
+
+// encoding/binary (Go standard library, trusted) moves float32 struct fields,
+// array elements and complex64 values through float64, which turns a
+// signalling NaN into a quiet one (bit 22 of the float32). That is a property
+// of the host library, not of the simulator, so the expected bytes are taken
+// from the library and the harness only checks that they differ from its own
+// little-endian encoding in that one bit.
+
+func onlyQuietBitDiffers(a, b []byte) bool {
+	if len(a) != len(b) {
+		return false
+	}
+	for i := range a {
+		if a[i] != b[i] && a[i]^b[i] != 0x40 {
+			return false
+		}
+	}
+	return true
+}
+
+// h2dExpected returns the bytes the library encodes for val (what an H2D has
+// to store), cross-checked against the harness' own encoding raw.
+func h2dExpected(val any, raw []byte) []byte {
+	var buf bytes.Buffer
+	if err := binary.Write(&buf, binary.LittleEndian, val); err != nil {
+		panic(err)
+	}
+	if !onlyQuietBitDiffers(buf.Bytes(), raw) {
+		panic("harness: own encoding differs from encoding/binary in more than the NaN quiet bit")
+	}
+	return buf.Bytes()
+}
+
+// d2hExpected returns the harness encoding of the value the library decodes
+// from device bytes dev into a destination of type t.
+func d2hExpected(t elemType, dev []byte) []byte {
+	dst, bytesOf := hostDest(t, len(dev))
+	if err := binary.Read(bytes.NewReader(dev), binary.LittleEndian, dst); err != nil {
+		panic(err)
+	}
+	out := bytesOf()
+	if !onlyQuietBitDiffers(out, dev) {
+		panic("harness: own decoding differs from encoding/binary in more than the NaN quiet bit")
+	}
+	return out
 }
